@@ -238,3 +238,24 @@ def _(h):
     E = matmul(M, transpose(M)) - np.eye(2, dtype=int)
     h.assume(nsq(E) >= 1e-6)
     h.raises('non-orthogonal 2x2', lambda: base.trlog2(M), ValueError)
+
+
+# ----------------------------------------------------------------------------- conditioning next to the half-turn band (F-repr)
+
+for _ax in ('z', 'x'):
+    @claim(f'log-conditioning-near-pi:{_ax}', split=True, values=True)
+    def _(h, ax=_ax):
+        """F-repr: a rotation matrix as a double array holds it -- diagonal entries off by at most 4 eps -- with an angle
+        between pi - 1e-5 and pi - 2e-7 (just outside trlog's half-turn band).  The logarithm must still have magnitude
+        <= pi and reproduce R to the property's tolerance.  (The general branch divides by sin(acos((tr-1)/2)), which
+        amplifies a 1e-16 error in the trace by 1/delta^2.)"""
+        th = h.angle('th', math.pi - 1e-5, math.pi - 2e-7)
+        R = h.arr(rotz_ref(h, th) if ax == 'z' else rotx_ref(h, th))
+        e1, e2 = h.real('e1', -2.0 ** -50, 2.0 ** -50), h.real('e2', -2.0 ** -50, 2.0 ** -50)
+        i, j = (0, 1) if ax == 'z' else (1, 2)
+        R[i, i] = R[i, i] + e1
+        R[j, j] = R[j, j] + e2
+        L = base.trlog(R, check=False)
+        w = base.vex(L)
+        h.true('rotation magnitude <= pi (+1e-6)', nsq(w) <= (math.pi + 1e-6) ** 2)
+        h.eq('exp(log R) = R', base.trexp(L), R, tol=1e-6)
